@@ -2,3 +2,7 @@ import Peppi.Props.C18
 #print axioms Peppi.Props.C18.peppiLoop_skip_other
 #print axioms Peppi.Props.C18.peppiRead_written
 #print axioms Peppi.Props.C18.assertCurrentVersion_iff
+#print axioms Peppi.Props.C18.tarArchive_starts
+#print axioms Peppi.Props.C18.tarRead_archive
+#print axioms Peppi.Props.C18.tarEntry_length
+#print axioms Peppi.Props.C18.parseOctal_octal
